@@ -8,6 +8,7 @@ import (
 	"fmt"
 	"io"
 	"strconv"
+	"strings"
 	"time"
 
 	toml "github.com/pelletier/go-toml/v2/unstable"
@@ -155,14 +156,18 @@ func (dec *tomlDecoder) createBoolScalar(tomlNode *toml.Node) (*CandidateNode, e
 
 func (dec *tomlDecoder) createIntegerScalar(tomlNode *toml.Node) (*CandidateNode, error) {
 	content := string(tomlNode.Data)
+	if digits := strings.ReplaceAll(content, "_", ""); strings.HasPrefix(digits, "0b") {
+		num, err := strconv.ParseInt(digits[2:], 2, 64)
+		return createScalarNode(num, fmt.Sprintf("%v", num)), err
+	}
 	_, num, err := parseInt64(content)
 	return createScalarNode(num, content), err
 }
 
 func (dec *tomlDecoder) createDateTimeScalar(tomlNode *toml.Node) (*CandidateNode, error) {
+	// the parser has validated it; TOML allows forms (a space for the T) that RFC3339 parsing rejects
 	content := string(tomlNode.Data)
-	val, err := parseDateTime(time.RFC3339, content)
-	return createScalarNode(val, content), err
+	return createScalarNode(time.Time{}, content), nil
 }
 
 func (dec *tomlDecoder) createFloatScalar(tomlNode *toml.Node) (*CandidateNode, error) {
@@ -181,6 +186,11 @@ func (dec *tomlDecoder) decodeNode(tomlNode *toml.Node) (*CandidateNode, error) 
 		return dec.createIntegerScalar(tomlNode)
 	case toml.DateTime:
 		return dec.createDateTimeScalar(tomlNode)
+	case toml.LocalDate, toml.LocalDateTime:
+		// already validated by the parser; no zone to interpret
+		return createScalarNode(time.Time{}, string(tomlNode.Data)), nil
+	case toml.LocalTime:
+		return dec.createStringScalar(tomlNode)
 	case toml.Float:
 		return dec.createFloatScalar(tomlNode)
 	case toml.Array:
